@@ -57,6 +57,13 @@ theorem root_call (native : Bool) (B : Rect) (c : Call) :
 theorem root_bbox (native : Bool) (B : Rect) : (root native B).bbox = B := by
   cases native <;> rfl
 
+/-- A call on top of any stack over a recording root: one `enter()?`, one log entry (the lowered
+call as the root records it). -/
+theorem root_stack_call (native : Bool) (B : Rect) (s : Stack) (c : Call) :
+    ((root native B).stack s).call c
+      = RootState.record ((rootLogged native B ∘ lowerStack B s) c) := by
+  rw [stack_call, root_bbox, root_call]; rfl
+
 /-! ### `Rec::enter` -/
 
 theorem enter_ok (st : RootState) (he : st.errored = false) (hf : st.failAt ≠ some st.calls) :
